@@ -94,6 +94,30 @@ reg(
 )
 
 
+# ---------------------------------------------------------------------------------------------
+# Level 2: real rawdb operations on a Database built directly (real Layout, real metadata)
+# ---------------------------------------------------------------------------------------------
+SBG = "Database::sync_bg_tasks -> Ok(()) (background tasks outside every claim)"
+L2B = ("database world of a concrete shape with concrete extent sizes in pages (listed in the harness name: r/x = region, "
+       "h = promoted hole, p = pending hole; x = the region written to); symbolic: region content lengths, metadata "
+       "dirty states, dirty bounds, file length (end..end+2 pages), entry point (write / write_at / truncate_write), "
+       "offset `at` (0..reserved+1), data length 0..5 pages, file-growth failure; ghost-mode data file (bytes not "
+       "modelled: writes/copies are events); one symbolic byte address for the pointwise layout oracle")
+L2F = ["rawdb::Region::write_with (write, write_at, truncate_write)", "rawdb::Database::{write,copy,set_min_len}",
+       "rawdb::Layout::{is_last_anything,get_hole,remove_or_compress_hole,find_smallest_adequate_hole,reserve,take_reserved,move_region,len}",
+       "rawdb::RegionMetadata::{set_len,set_start,set_reserved,write_if_dirty,to_bytes}", "rawdb::Regions::write_at",
+       "rawdb::write_to_mmap (ghost hook)"]
+WD = ("one real write step from an arbitrary INV state: placement algebra (new start/len/reserved, exactly one data write at "
+      "new_start+offset, old bytes copied iff relocated, copy before write before slot), frame (no other region's extent or "
+      "metadata touched), INV re-established pointwise, best-fit reuse, slot written with final values; refused write "
+      "(offset beyond end / growth failure) has no effect")
+for (n, tier) in [("c01_write_x1h4r1", "quick"), ("c01_write_x1p1", "quick"), ("c01_write_r1x1", "thorough"),
+                  ("c01_write_x1h1r1", "thorough"), ("c01_write_x1r1h2r1h4", "thorough"), ("c01_write_x1r1h2", "thorough"),
+                  ("c01_write_x2r1", "thorough"), ("c01_write_h1x1r1", "thorough"), ("c01_write_x1h2p1", "thorough")]:
+    for prop in ("C01",):
+        reg(H(n, "rawdb", prop, tier=tier, mem=24, timeout=2400, desc=WD, bounds=L2B, functions=L2F, stubs=[FMT, SBG]))
+
+
 def select(prop, tier, seed=0):
     out = []
     for h in REG:
